@@ -7,6 +7,7 @@ the next thread to run from the decision tape and hands it the baton.  When nobo
 virtual clock jumps to the earliest wake-up time; when there is none the run ends in DEADLOCK.
 """
 import hashlib
+import math
 import sys
 import threading
 import traceback
@@ -59,6 +60,10 @@ class Sched(object):
         self.steps = 0                  # scheduling decisions with a real choice
         self.decisions = 0              # all scheduling decisions (also forced ones)
         self.hold_choices = (0, 3, 12, 50, 200)
+        self.unlock_hold = None         # (n, d): chance that a thread releasing a shared lock is held back
+        self.stall_choices = ()         # virtual seconds a pre-empted thread may lose (off by default)
+        self.stall_chance = (1, 2)
+        self.stalls = 0
         self.switches = 0               # actual context switches
         self.seq = 0                    # global event sequence number
         self.max_steps = max_steps
@@ -147,7 +152,11 @@ class Sched(object):
 
     def _arm_preempt(self):
         if self.preempt_left > 0:
-            self.next_preempt = self.line_count + 1 + self.tape.draw(self.preempt_gap, 'pgap')
+            # distance (in traced lines) to the next pre-emption: mostly within preempt_gap, sometimes
+            # 8x or 64x further, so that the few pre-emptions of a run do not all fall into the first
+            # execution of the traced code
+            g = self.preempt_gap * (1, 1, 8, 64)[self.tape.draw(4, 'pgapx')]
+            self.next_preempt = self.line_count + 1 + self.tape.draw(g, 'pgap')
         else:
             self.next_preempt = -1
 
@@ -308,7 +317,12 @@ class Sched(object):
         if d is None or d <= 0:
             self.yield_('sleep0')
             return
-        self.block(Waiter(cond=None, deadline=self.now + d, why='sleep'))
+        dl = self.now + d
+        if dl <= self.now:
+            # a positive sleep always lets time pass (the virtual clock starts at 1e6 s, where a
+            # sub-nanosecond remainder would otherwise round to "now" and a wait loop would spin)
+            dl = math.nextafter(self.now, INF)
+        self.block(Waiter(cond=None, deadline=dl, why='sleep'))
 
     def thread_exit(self, th):
         th._sim_state = 'done'
@@ -361,6 +375,15 @@ class Sched(object):
         self.log('pre', code.co_name, frame.f_lineno - code.co_firstlineno)
         self.probe('preempt:' + code.co_name)
         self._arm_preempt()
+        if self.stall_choices and self.tape.chance(self.stall_chance[0], self.stall_chance[1], 'stall?'):
+            # a stalled thread (descheduled / paged out / slow node): it loses a stretch of *virtual
+            # time* at this line, so timers expire and delayed segments arrive meanwhile
+            d = self.tape.choice(self.stall_choices, 'stall')
+            self.stalls += 1
+            self.log('stall', code.co_name, d)
+            self.probe('stall:' + code.co_name)
+            self.sleep(d)
+            return
         # hold the pre-empted thread back for a tape-chosen number of scheduling decisions (PCT-style
         # priority drop): the others run into the window it left open
         self.current._sim_hold = self.decisions + self.tape.choice(self.hold_choices, 'hold')
@@ -373,7 +396,7 @@ class Sched(object):
         for t in self.threads:
             w = t._sim_waiter.why if t._sim_waiter is not None else ''
             ent = {'tid': t._sim_tid, 'name': t._sim_name, 'state': t._sim_state, 'wait': w}
-            if t._sim_state in ('wait', 'ready') and t.ident in frames:
+            if t._sim_state in ('wait', 'ready', 'run', 'running') and t.ident in frames:
                 st = traceback.extract_stack(frames[t.ident])
                 ent['stack'] = ['%s:%d %s' % (f.filename.rsplit('/', 1)[-1], f.lineno, f.name)
                                 for f in st[-10:]]
@@ -485,7 +508,14 @@ class SimLock(object):
         if self.shared:
             s = CUR
             if s is not None and s.in_sim():
-                s.yield_('unlock')
+                if s.unlock_hold and s.tape.chance(s.unlock_hold[0], s.unlock_hold[1], 'uhold?'):
+                    # the releasing thread loses the processor right after the release: the others
+                    # run into whatever it was going to do next with the formerly protected state
+                    s.probe('unlock_hold')
+                    s.current._sim_hold = s.decisions + s.tape.choice(s.hold_choices, 'uhold')
+                    s.yield_('unlock', force_other=True)
+                else:
+                    s.yield_('unlock')
 
     def locked(self):
         return self.owner is not None
